@@ -122,6 +122,31 @@ def enumerate_cases(cfg):
             ops.append(['noLongerProvides', ob, [0]])
             ops.append(['providedBy', ob])
             yield {'setup': STD_SETUP, 'ops': ops}
+    # an interface renamed after it was hashed, declared and registered
+    for i in (0, 1):
+        ops = list(base) + [
+            ['providedBy', ['o', 1]], ['hash_eq', ['I', 0], ['I', 1]],
+            ['lookup', 1, [['I', 1]], ['I', 0], '', True],
+            ['queryAdapter', 1, [['o', 1]], ['I', 0], '', True],
+            ['rename', i]]
+        for _ in (0, 1):
+            ops += [['hash_eq', ['I', i], ['I', 1 - i]],
+                    ['hash_eq', ['I', i], ['I', i]],
+                    ['iface_providedBy', ['I', i], ['o', 1]],
+                    ['iface_implementedBy', ['I', i], ['c', 1]],
+                    ['contains', ['C', 1], ['I', i]],
+                    ['isOrExtends', ['I', 1], ['I', 0]],
+                    ['sorted', [['I', 0], ['I', 1], ['I', 2]]],
+                    ['lookup', 1, [['I', 1]], ['I', 0], '', True],
+                    ['lookup1', 0, [['I', i]], ['I', 0], '', True],
+                    ['queryAdapter', 1, [['o', 1]], ['I', 0], '', True],
+                    ['subscriptions', 1, [['I', 1]], ['I', 0], '', True],
+                    ['register', 0, [['I', i]], ['I', i], 'a', 11, False],
+                    ['registered', 0, [['I', i]], ['I', i], 'a'],
+                    ['classImplements', ['c', 3], [i]],
+                    ['providedBy', ['o', 3]], ['adapt', i, ['o', 3],
+                                               'absent']]
+        yield {'setup': STD_SETUP, 'ops': ops}
     # the first call a registry serves after something above it changed,
     # through every entry point (a verifying registry has to notice by
     # itself; seed C10b): warm the entry point, change the base, call again
@@ -210,6 +235,7 @@ def op_strategy(draw):
          'add', 'sub', 'cmp', 'cmp', 'hash_eq', 'sorted', 'classImplements',
          'classImplementsOnly', 'classImplementsFirst', 'directlyProvides',
          'alsoProvides', 'noLongerProvides', 'declaration', 'rebase',
+         'rename',
          'adapt', 'adapt', 'adapt', 'adapt_direct', 'hook', 'register',
          'register', 'register', 'unregister', 'subscribe', 'subscribe',
          'unsubscribe', 'registered', 'subscribed', 'rebuild',
@@ -229,6 +255,8 @@ def op_strategy(draw):
         return [k, draw(specref()), draw(specref(True)), draw(st.booleans())]
     if k in ('sro', 'iter'):
         return [k, draw(specref())]
+    if k == 'rename':
+        return [k, draw(IDX)]
     if k == 'contains':
         return [k, draw(st.one_of(
             st.tuples(st.just('C'), IDX).map(list),
